@@ -39,7 +39,7 @@ EXTENDS Naturals, Sequences, FiniteSets, TLC
 
 CONSTANTS
     MaxDepth,     \* histories of at most this many calls
-    BaseSel,      \* "memo" | "core" | "all" | "god" | "godall" : which bases the model explores
+    BaseSel,      \* "memo" | "graph" | "core" | "all" | "god" | "godall" : which bases the model explores
     LaySel,       \* "C" | "all"      : which memory layouts
     ProjKeyMode,  \* "full" | "no_from"      : _projection_cache key
     DbetaKeyMode, \* "full" | "len_only"     : _dbeta_cache key
@@ -51,6 +51,8 @@ CONSTANTS
     PerturbMode,  \* "pure" | "rewrites_none": Misc.perturb_params replaces None entries of the caller's bound lists
     HashMode,     \* "ordered" | "set_order" : LowPass.compute_cov_dist builds its dict in pop_ids order or in set (string-hash) order
     SFSMode,      \* "copies" | "callers_list": Demes.SFS renames ancient samples in a copy of / in the caller's sampled_demes list
+    KernelMode,   \* "stateless" | "static_by_size": a compiled kernel recomputes the grid-derived arrays in every call, or
+                  \*                                 keeps them in static storage and rebuilds them only when the grid SIZE changes
     MaxTable      \* state constraint: at most this many stored keys per table
 
 Tables == {"proj", "dbeta", "part", "precalc", "multinom", "bb", "godambe"}
@@ -74,7 +76,9 @@ LowPassB == {"lowpass_projmat_6_4", "lowpass_projmat_6_4_F", "lowpass_partprob_a
 Int1B    == {"one_pop_c", "one_pop_td"}
 IntNB    == {"two_pops_c", "two_pops_td", "three_pops_c", "three_pops_td", "four_pops_c", "four_pops_td",
              "five_pops_c", "five_pops_td", "two_pops_frozen"}
-IntB     == Int1B \cup IntNB
+\* the time-dependent drivers again, on a second grid with the SAME number of points but other spacings (contiguous only)
+IntKB    == {"one_pop_td_B", "two_pops_td_B", "three_pops_td_B", "four_pops_td_B", "five_pops_td_B"}
+IntB     == Int1B \cup IntNB \cup IntKB
 PhiXB    == {"phi_1D", "phi_1D_genic"}
 Phim1B   == {"phi_1D_to_2D"}
 PhimNB   == {"phi_2D_to_3D_split_1", "phi_2D_to_3D_admix", "phi_2D_admix_1_into_2", "phi_3D_admix_1_and_2_into_3",
@@ -125,11 +129,11 @@ Site(b) ==
       [] b \in {"lowpass_partprob_af_6_4", "lowpass_partprob_af_6_3_F", "lowpass_partprob_geno_6"} -> "LowPass.partitions_and_probabilities"
       [] b = "lowpass_calling_error_4" -> "LowPass.calling_error_matrix"
       [] b = "lowpass_prob_enough_6_4" -> "LowPass.probability_enough_individuals_covered"
-      [] b \in {"one_pop_c", "one_pop_td"} -> "Integration.one_pop"
-      [] b \in {"two_pops_c", "two_pops_td", "two_pops_frozen"} -> "Integration.two_pops"
-      [] b \in {"three_pops_c", "three_pops_td"} -> "Integration.three_pops"
-      [] b \in {"four_pops_c", "four_pops_td"} -> "Integration.four_pops"
-      [] b \in {"five_pops_c", "five_pops_td"} -> "Integration.five_pops"
+      [] b \in {"one_pop_c", "one_pop_td", "one_pop_td_B"} -> "Integration.one_pop"
+      [] b \in {"two_pops_c", "two_pops_td", "two_pops_frozen", "two_pops_td_B"} -> "Integration.two_pops"
+      [] b \in {"three_pops_c", "three_pops_td", "three_pops_td_B"} -> "Integration.three_pops"
+      [] b \in {"four_pops_c", "four_pops_td", "four_pops_td_B"} -> "Integration.four_pops"
+      [] b \in {"five_pops_c", "five_pops_td", "five_pops_td_B"} -> "Integration.five_pops"
       [] b \in PhiXB -> "PhiManip.phi_1D"
       [] b \in Phim1B \cup PhimNB ->
             (CASE b = "remove_pop_3d_2" -> "PhiManip.remove_pop" [] b = "reorder_pops_3d" -> "PhiManip.reorder_pops"
@@ -162,7 +166,7 @@ PhiLays(b) == IF b \in FromPhiNB \cup InbNB \cup IntNB \cup PhimNB \cup StatNB \
               ELSE IF b \in FromPhi1B \cup Inb1B \cup Int1B \cup Phim1B \cup Stat1B \cup PerturbVB
                          \cup {"project_1d_8_4", "project_1d_8_6", "project_1d_6_4", "project_1d_6_4_folded"} THEN Lay1
               ELSE LayC
-XLays(b)   == IF b \in FromPhi1B \cup FromPhiNB \cup Inb1B \cup InbNB \cup IntB \cup PhiXB \cup Phim1B \cup PhimNB THEN Lay1 ELSE LayC
+XLays(b)   == IF b \in FromPhi1B \cup FromPhiNB \cup Inb1B \cup InbNB \cup Int1B \cup IntNB \cup PhiXB \cup Phim1B \cup PhimNB THEN Lay1 ELSE LayC
 HasArrays(b) == PhiLays(b) # LayC \/ XLays(b) # LayC
 
 \* is the result of a non-contiguous argument bit-for-bit the result of its contiguous copy ("exact"), or may the
@@ -263,6 +267,17 @@ MapOf(b) == CASE b \in {"demes_output_X", "demes_output_again_X"} -> "X"
               [] b \in {"demes_output_Y", "demes_output_again_Y"} -> "Y"
               [] OTHER -> "none"
 
+\* Compiled kernels hold NO state between calls: the integrators have an empty table footprint and their result is a
+\* function of their arguments.  Which drivers hand the grid to a compiled kernel (the time-dependent ones, and
+\* four/five_pops always), which kernel family (number of populations), and on which grid:
+KernelGrid(b) == b \in {"one_pop_td", "two_pops_td", "three_pops_td", "four_pops_c", "four_pops_td", "five_pops_c", "five_pops_td"} \cup IntKB
+KernelOf(b) == CASE b \in {"one_pop_td", "one_pop_td_B"} -> 1 [] b \in {"two_pops_td", "two_pops_td_B"} -> 2
+                 [] b \in {"three_pops_td", "three_pops_td_B"} -> 3 [] b \in {"four_pops_c", "four_pops_td", "four_pops_td_B"} -> 4
+                 [] OTHER -> 5
+GridSize(b) == CASE KernelOf(b) = 1 -> 10 [] KernelOf(b) = 2 -> 8 [] KernelOf(b) = 3 -> 6 [] KernelOf(b) = 4 -> 5 [] OTHER -> 4
+GridKind(b) == IF b \in IntKB THEN "B" ELSE "A"
+KernelBases == {b \in AllBases : KernelGrid(b)}
+
 \* constant-level tables (TLC evaluates them once)
 NeedsF == [b \in AllBases |-> Needs(b)]
 SiteF  == [b \in AllBases |-> Site(b)]
@@ -270,7 +285,8 @@ AttrF  == [b \in AllBases |-> [evals |-> Evals(b), log |-> LogEffect(b), integ |
                                 args |-> (IF PhiLays(b) # LayC \/ b \in IntB \cup PerturbB \cup LowPassFuncB \cup DemesSFSB THEN {1} ELSE {}) \cup (IF XLays(b) # LayC THEN {2} ELSE {}),
                                 god |-> b \in GodB]]
 
-MemoBases == {b \in AllBases : Needs(b) # Z \/ b \in GodB \/ Evals(b) > 0 \/ b \in DemesB} \cup {"part_4_3", "four_pops_c", "one_pop_td", "phi_1D", "perturb_params_none_bounds", "lowpass_cov_dist_2pop"}
+MemoBases == {b \in AllBases : Needs(b) # Z \/ b \in GodB \/ Evals(b) > 0 \/ b \in DemesB} \cup {"part_4_3", "four_pops_c", "one_pop_td", "phi_1D", "perturb_params_none_bounds", "lowpass_cov_dist_2pop",
+                  "one_pop_td_B", "two_pops_td", "two_pops_td_B"}
 \* one representative of every kind of table interaction (for the deeper exhaustive run)
 CoreBases == {"project_1d_8_4", "project_1d_6_4", "project_2d_64_43", "from_data_dict_1d_4", "lowpass_projmat_6_4", "cached_projection_4_6_3",
               "from_phi_2d_43_A", "from_phi_2d_43_B", "from_phi_3d_432_A", "from_phi_4d_2222", "from_phi_2d_22_A6",
@@ -278,8 +294,9 @@ CoreBases == {"project_1d_8_4", "project_1d_6_4", "project_2d_64_43", "from_data
               "lowpass_projmat_6_4_F", "lowpass_partprob_af_6_4", "lowpass_calling_error_4",
               "fim_A", "fim_B", "fim_A_named", "gim_B", "object_func_B_store", "optimize_grid_A",
               "demes_output_X", "demes_output_again_Y", "demes_output_again_none", "four_pops_c", "phi_1D",
-              "lowpass_func_2d", "demes_sfs_ancient"}
+              "lowpass_func_2d", "demes_sfs_ancient", "one_pop_td", "one_pop_td_B"}
 Bases == CASE BaseSel = "memo" -> MemoBases
+           [] BaseSel = "graph" -> MemoBases \cup KernelBases
            [] BaseSel = "core" -> CoreBases
            [] BaseSel = "god" -> {"fim_A", "fim_B", "gim_B", "fim_A_named"}
            [] BaseSel = "godall" -> GodB
@@ -304,9 +321,11 @@ VARIABLES tabs,     \* [table -> [stored key -> [fk |-> provenance, by |-> base 
           theta,    \* keys of Inference._theta_store
           dlog,     \* the demes event log: [len, owner ("none" | "m1"), names ("raw" | "X" | "Y"), by (base that built it)]
           hist,     \* the calls made so far (call ids)
+          kern,     \* per kernel family: the grid the last call handed to it, [kind, n, by]  (history bookkeeping; it is
+                    \* implementation state only in the defective design KernelMode = "static_by_size")
           heap,     \* the array objects of the last call: [id -> [role, layout, version]]
           res       \* what the last call returned / did (the observation the refinement is about)
-vars == <<tabs, counter, theta, dlog, hist, heap, res>>
+vars == <<tabs, counter, theta, dlog, hist, kern, heap, res>>
 
 NoRes == [call |-> "", b |-> "", used |-> {}, value |-> <<>>, result |-> 0, args |-> {}, pairs |-> {}]
 
@@ -325,10 +344,11 @@ TableAfter(t, need, adr, b) ==
         ELSE [fk |-> First(t, CHOOSE fk \in need : Key(t, fk, adr) = k, need, adr), by |-> b]]
 
 Normalises(b) == EntryMode = "copy_all" \/ SiteF[b] \notin {"Integration.four_pops", "Integration.five_pops"}
-\* which drivers hand the grid to a compiled kernel: the time-dependent ones, and four/five_pops always
-KernelGrid(b) == b \in {"one_pop_td", "two_pops_td", "three_pops_td", "four_pops_c", "four_pops_td", "five_pops_c", "five_pops_td"}
 KernelSeesC(c) == /\ (Normalises(c.b) \/ c.lay = "C")
                   /\ (XXMode = "contig" \/ ~KernelGrid(c.b) \/ c.xl = "C")
+
+NoGrid == [kind |-> "", n |-> 0, by |-> ""]
+SameSizeOtherGrid(b) == KernelGrid(b) /\ kern[KernelOf(b)].n = GridSize(b) /\ kern[KernelOf(b)].kind # GridKind(b)
 
 DemesValue(b) ==   \* the names the exported graph carries
     LET want == MapOf(b)
@@ -350,6 +370,8 @@ Call(c) ==
         /\ LET used == UNION {{<<t, fk, UsedProv(t, fk, need[t], adr)>> : fk \in need[t]} : t \in touched}
                pairs == UNION {{<<tabs[t][Key(t, fk, adr)].by, b, t>> : fk \in {f \in need[t] : Present(t, f, adr)}} : t \in touched}
                         \cup (IF b \in DemesAgainB /\ dlog.owner = "m1" THEN {<<dlog.by, b, "demeslog">>} ELSE {})
+                        \* a kernel that is handed a grid of the size, but not the spacings, of its previous call
+                        \cup (IF SameSizeOtherGrid(b) THEN {<<kern[KernelOf(b)].by, b, "kernel">>} ELSE {})
                inplace == \/ (AttrF[b].integ /\ ~Normalises(b)) \/ (b \in PerturbB /\ PerturbMode = "rewrites_none")
                           \/ b \in DocumentedInPlace
                           \/ (b \in {"demes_sfs_ancient", "from_demes_ancient"} /\ SFSMode = "callers_list")
@@ -357,6 +379,7 @@ Call(c) ==
                value == IF b \in DemesB THEN DemesValue(b)
                         ELSE IF AttrF[b].integ /\ ~KernelSeesC(c) THEN <<"garbage", b, c.lay, c.xl>>
                         ELSE IF hs = "labels_swapped" THEN <<"coverage_of_the_other_population", b>>
+                        ELSE IF KernelMode = "static_by_size" /\ SameSizeOtherGrid(b) THEN <<"stale_grid_spacings", b>>
                         ELSE <<"F", b>>
            IN /\ heap' = [id \in args \cup {3} |->
                             IF id = 1 THEN [role |-> "array", layout |-> c.lay, version |-> IF inplace THEN 1 ELSE 0]
@@ -378,16 +401,17 @@ Call(c) ==
                           names |-> IF DemesMode = "storeback" /\ applied # "none" THEN applied
                                     ELSE IF rebuilt THEN "raw" ELSE dlog.names]
                  [] OTHER -> dlog
+    /\ kern' = IF KernelGrid(b) THEN [kern EXCEPT ![KernelOf(b)] = [kind |-> GridKind(b), n |-> GridSize(b), by |-> b]] ELSE kern
     /\ hist' = Append(hist, CallId(c))
 
 Init == /\ tabs = [t \in Tables |-> <<>>] /\ counter = 0 /\ theta = {} /\ hist = <<>>
         /\ dlog = [len |-> 0, owner |-> "none", names |-> "raw", by |-> ""]
-        /\ heap = <<>> /\ res = NoRes
+        /\ heap = <<>> /\ res = NoRes /\ kern = [k \in 1..5 |-> NoGrid]
 Next == \E c \in Alphabet : Call(c)
 Spec == Init /\ [][Next]_vars
 
 \* exhaustive runs identify histories that lead to the same tables / bookkeeping and end in the same call
-MCView == <<tabs, counter, theta, dlog, heap, res, Len(hist)>>
+MCView == <<tabs, counter, theta, dlog, kern, heap, res, Len(hist)>>
 TableBound == \A t \in Tables : Cardinality(DOMAIN tabs[t]) <= MaxTable
 
 \* behaviour generation (tlc -simulate): print every complete random history
@@ -400,9 +424,11 @@ ResultSpec(b) == ResultSpecF[b]
 \* the refinement Memo => MemoFree, step by step
 \* (every memoised value the call used is the value of the full key it was looked up for)
 ResultIndependentOfHistory ==
-    res.b # "" => ((\A u \in res.used : u[3] = u[2]) /\ (res.b \in DemesB => res.value = ResultSpec(res.b).value))
+    res.b # "" => /\ \A u \in res.used : u[3] = u[2]
+                  /\ res.b \in DemesB => res.value = ResultSpec(res.b).value
+                  /\ res.value[1] # "stale_grid_spacings"
 ResultIndependentOfHashSeed == res.b # "" => res.value[1] # "coverage_of_the_other_population"
-LayoutIndependent          == (res.b # "" /\ res.b \notin DemesB /\ res.value[1] # "coverage_of_the_other_population")
+LayoutIndependent          == (res.b # "" /\ res.b \notin DemesB /\ res.value[1] \notin {"coverage_of_the_other_population", "stale_grid_spacings"})
                                  => res.value = ResultSpec(res.b).value
 ArgumentsUnchanged         == res.b # "" => \A id \in res.args : heap[id].version = 0 \/ (id = 1 /\ res.b \in DocumentedInPlace)
 ResultIsFresh              == (res.b # "" /\ AttrF[res.b].integ) => res.result \notin res.args
